@@ -35,7 +35,19 @@ func runTCPCase(t *testing.T, sc *TScript) (res tcpResult) {
 	return res
 }
 
-func genTStep(rt *rapid.T, nc int) TStep {
+func genTStep(rt *rapid.T, nc int, hostile bool) TStep {
+	if hostile && rapid.IntRange(0, 1).Draw(rt, "hostile") == 0 {
+		st := TStep{Op: "HostileStream", Life: -1}
+		st.C = rapid.IntRange(0, nc-1).Draw(rt, "c")
+		st.N = rapid.IntRange(0, 5).Draw(rt, "mode")
+		st.Seed = rapid.Uint64Range(0, 1<<24).Draw(rt, "hseed")
+		st.Cuts = rapid.SampledFrom([]int{1, 1, 2, 3, 7, 1000}).Draw(rt, "cuts")
+		if rapid.IntRange(0, 5).Draw(rt, "onControl") == 0 {
+			st.Side = "control"
+		}
+
+		return st
+	}
 	op := rapid.SampledFrom([]string{
 		"Allocate", "CreatePermission", "CreatePermission", "Connect", "Connect", "Connect", "PeerConnect", "PeerConnect",
 		"ConnectionBind", "ConnectionBind", "ConnectionBind", "TCPData", "TCPData", "TCPData", "TCPClose", "Sleep", "Sleep", "Refresh",
@@ -82,7 +94,7 @@ func genTStep(rt *rapid.T, nc int) TStep {
 	return st
 }
 
-func genTScript(rt *rapid.T, maxSteps int) *TScript {
+func genTScript(rt *rapid.T, maxSteps int, hostile bool) *TScript {
 	sc := &TScript{}
 	sc.Cfg.AllocLifetimeS = rapid.SampledFrom([]int{0, 0, 60, 600, 3600}).Draw(rt, "lifetime")
 	sc.Cfg.PermTimeoutS = rapid.SampledFrom([]int{0, 0, 20, 45, 300}).Draw(rt, "perm")
@@ -117,7 +129,7 @@ func genTScript(rt *rapid.T, maxSteps int) *TScript {
 
 			continue
 		}
-		sc.Steps = append(sc.Steps, genTStep(rt, nc))
+		sc.Steps = append(sc.Steps, genTStep(rt, nc, hostile))
 	}
 
 	return sc
@@ -177,7 +189,7 @@ func judgeTCP(r *vkit.Run, id string, res tcpResult) (string, string) {
 	return "", ""
 }
 
-func runTCPProp(t *testing.T, id string, nontrivial func(*Stats) bool) {
+func runTCPProp(t *testing.T, id string, hostile bool, nontrivial func(*Stats) bool) {
 	t.Helper()
 	r := vkit.Start(t, id)
 	defer r.Finish()
@@ -200,8 +212,14 @@ func runTCPProp(t *testing.T, id string, nontrivial func(*Stats) bool) {
 	}
 	if r.Replay != "" {
 		var rf tReplay
-		if err := vkit.LoadJSON(r.Replay, &rf); err != nil || rf.Script == nil {
+		if err := vkit.LoadJSON(r.Replay, &rf); err != nil {
 			t.Fatalf("cannot load replay: %v", err)
+		}
+		if rf.Script == nil {
+			rf.Script = &TScript{}
+			if err := vkit.LoadJSON(r.Replay, rf.Script); err != nil || len(rf.Script.Steps) == 0 {
+				t.Fatalf("cannot load replay as a script: %v", err)
+			}
 		}
 		res := runTCPCase(t, rf.Script)
 		account(rf.Script, res, "")
@@ -237,7 +255,7 @@ func runTCPProp(t *testing.T, id string, nontrivial func(*Stats) bool) {
 		maxSteps = r.Size
 	}
 	r.Rapid(t, "search", 0, r.Checks, func(rt *rapid.T) {
-		sc := genTScript(rt, maxSteps)
+		sc := genTScript(rt, maxSteps, hostile)
 		r.Journal(sc)
 		res := runTCPCase(t, sc)
 		account(sc, res, "generated")
@@ -248,4 +266,10 @@ func runTCPProp(t *testing.T, id string, nontrivial func(*Stats) bool) {
 	})
 }
 
-func TestC16(t *testing.T) { runTCPProp(t, "C16", c16NonTrivial) }
+func TestC16(t *testing.T) { runTCPProp(t, "C16", false, c16NonTrivial) }
+
+func TestC09Stream(t *testing.T) {
+	runTCPProp(t, "C09", true, func(st *Stats) bool {
+		return has(st, "hostile:stream-header-grid") || has(st, "hostile:frames-then-garbage") || has(st, "hostile-on-live-control-connection") || (has(st, "tcp:allocate") && (has(st, "hostile:bit-flips") || has(st, "hostile:hostile-attribute-truncated")))
+	})
+}
